@@ -93,8 +93,10 @@ func runC06(c *engine.Ctx, tier string) {
 
 // captureLoop: on the change path every iteration over the change's values assigns
 // rollbackValues[path] on every branch.
-func captureLoop(c *engine.Ctx) {
-	o := c.Custom("C06.3c", "K-order(loop body)", "every iteration over the change's values writes captured[key] (prior value or tombstone) on every fall-through branch, and P.Status.RollbackValues := captured",
+func captureLoop(c *engine.Ctx) { captureLoopAs(c, "C06.3c") }
+
+func captureLoopAs(c *engine.Ctx, id string) {
+	o := c.Custom(id, "K-order(loop body)", "every iteration over the change's values writes captured[key] (prior value or tombstone) on every fall-through branch, and P.Status.RollbackValues := captured",
 		"every path the change touches has its prior state captured for a later rollback")
 	defer o.Done(1)
 	paths, err := c.A.Paths(pkgProposalCtl)
@@ -145,6 +147,8 @@ func captureLoop(c *engine.Ctx) {
 				bad = "for a path that exists in the configuration the captured value is " + c.Render(rhs) + ", not the configuration's value"
 			case hasNot && !(strings.Contains(rhs, "Deleted:true") && strings.Contains(rhs, "Path:key("+chg+")")):
 				bad = "for a path that does not exist in the configuration the captured value is not a tombstone for that path: " + c.Render(rhs)
+			case hasNot && strings.Contains(rhs, "Index:"):
+				bad = "the tombstone captured for a path the change creates carries an index (" + c.Render(rhs) + "): the store rewrites an entry only when the index differs from the stored one, and the created value carries the change's own index — the rollback of a created path would be skipped"
 			}
 			if bad == "" {
 				// the captured map is what is stored on the VALIDATED path
